@@ -453,7 +453,99 @@ fn case_gap(out: &mut CaseOut, seed: u64, idx: u64) {
 /// directory is opened again. Either that open is refused while the iterator lives, or whatever
 /// the new instance does (rewrite everything, compact, collect garbage) leaves the iterator's
 /// tables alone: the iterator must deliver exactly its frozen view without an error.
+/// The same situation on the file system raindb ships for tests and examples, `InMemoryFileSystem`
+/// (every other case of the family): an iterator outlives its `DB`; whatever a later instance on
+/// the same path does, the iterator must deliver its view.
+fn case_iterator_outlives_db_in_memory(out: &mut CaseOut, seed: u64, idx: u64) {
+    use raindb::fs::{FileSystem, InMemoryFileSystem};
+    use raindb::{WriteOptions, DB};
+    let mut rng = Rng::new(mix(&[seed, idx], "c11-outlive-mem"));
+    director().reset(rng.next_u64());
+    let cfg = Config { memtable: 1024, file: *rng.pick(&[1024u64, 4096]), block: 256, reuse: rng.chance(0.5) };
+    let fs: Arc<dyn FileSystem> = Arc::new(InMemoryFileSystem::new());
+    let opts = || dbutil::options(Arc::clone(&fs), "db", &cfg);
+    let ctx = json!({"family": "iterator-outlives-its-database", "filesystem": "InMemoryFileSystem", "config": cfg.describe()});
+    let pool = gen::key_pool(&mut rng, gen::KeyFamily::Ascii, 60);
+    let mut model: crate::session::Map = Default::default();
+    let mut counter = 0u64;
+    {
+        let db = match DB::open(opts()) {
+            Ok(db) => db,
+            Err(e) => {
+                out.violate("C11/open-failed", json!({"ctx": ctx, "error": e.to_string()}));
+                return;
+            }
+        };
+        for round in 0..3 {
+            for k in &pool {
+                counter += 1;
+                let v = gen::tagged_value(&mut rng, &format!("v{round}.{counter}:"), 40);
+                if db.put(WriteOptions::default(), k.clone(), v.clone()).is_ok() {
+                    model.insert(k.clone(), v);
+                }
+            }
+            let _g = watch::enter("compact_range");
+            db.compact_range(None..None);
+        }
+    }
+    // a cold instance, an iterator, the instance goes away
+    let db = match DB::open(opts()) {
+        Ok(db) => db,
+        Err(e) => {
+            out.violate("C11/open-failed", json!({"ctx": ctx, "error": e.to_string(), "when": "clean reopen"}));
+            return;
+        }
+    };
+    let frozen: Vec<(Vec<u8>, Vec<u8>)> = model.iter().map(|(k, v)| (k.clone(), v.clone())).collect();
+    let mut it = match db.new_iterator(ReadOptions { fill_cache: false, snapshot: None }) {
+        Ok(it) => it,
+        Err(e) => {
+            out.violate("C11/new-iterator-error", json!({"ctx": ctx, "error": e.to_string()}));
+            return;
+        }
+    };
+    let _ = it.seek_to_first();
+    drop(db);
+    // another instance on the same path
+    let second = { let _g = watch::enter("open(second)"); DB::open(opts()) };
+    let refused = second.is_err();
+    if let Ok(db2) = &second {
+        for round in 0..2 {
+            for k in &pool {
+                counter += 1;
+                let _ = db2.put(WriteOptions::default(), k.clone(), gen::tagged_value(&mut rng, &format!("n{round}.{counter}:"), 40));
+            }
+            let _g = watch::enter("compact_range");
+            db2.compact_range(None..None);
+        }
+    }
+    let mut got: Vec<(Vec<u8>, Vec<u8>)> = vec![];
+    let mut seek_error = None;
+    if let Err(e) = it.seek_to_first() {
+        seek_error = Some(e.to_string());
+    }
+    while seek_error.is_none() && it.is_valid() && got.len() <= frozen.len() + 1 {
+        let (k, v) = it.current().unwrap();
+        got.push((k.clone(), v.clone()));
+        it.next();
+    }
+    let status = it.status().map(|e| e.to_string());
+    drop(it);
+    if seek_error.is_some() || status.is_some() || got != frozen {
+        out.violate(
+            "C11/live-file-deleted/iterator-of-the-previous-instance-lost-its-tables/in-memory-file-system",
+            json!({"ctx": ctx, "second_open_refused": refused, "seek_error": seek_error, "status": status, "entries_delivered": got.len(), "entries_expected": frozen.len()}),
+        );
+    }
+    drop(second);
+    out.nontrivial(format!("iterator-outlives-db/in-memory/second-open-{}", if refused { "refused" } else { "succeeded" }));
+    out.sample = Some(ctx);
+}
+
 fn case_iterator_outlives_db(out: &mut CaseOut, seed: u64, idx: u64) {
+    if idx % 2 == 1 {
+        return case_iterator_outlives_db_in_memory(out, seed, idx);
+    }
     let mut rng = Rng::new(mix(&[seed, idx], "c11-outlive"));
     let d = director();
     d.reset(rng.next_u64());
